@@ -118,6 +118,16 @@ func (p *Plenc) CodecForTypeRegistry(registry plenccodec.CodecRegistry, typ refl
 		c = plenccodec.PointerWrapper{Underlying: subc}
 
 	case reflect.Struct:
+		if tag != "" {
+			if rc := registry.Load(typ, ""); rc != nil {
+				if _, ok := rc.(*plenccodec.StructCodec); !ok {
+					// The type is encoded by a codec registered for it (like
+					// time.Time), not field by field, but there is no such
+					// codec for this tag
+					return nil, fmt.Errorf("no codec available for %s with tag %q", typ, tag)
+				}
+			}
+		}
 		c, err = plenccodec.BuildStructCodec(p, registry, typ, tag)
 		if err != nil {
 			return nil, err
